@@ -23,14 +23,16 @@ const (
 	opRelOwn   // release the id the client currently holds (skip if none)
 	opRelStale // release again the id the client released most recently (skip if none)
 	opRelPrev  // release the oldest id ever returned to the client
+	opRelBarge // release own id and, back to back on the same goroutine (before a woken waiter can run), a non-waiting start by client D
 )
 
 type op struct {
 	K opKind `json:"k"`
 	C int    `json:"c"`
+	D int    `json:"d,omitempty"`
 }
 
-var kindName = map[opKind]string{opStartW: "StartW", opStartN: "StartN", opRelOwn: "RelOwn", opRelStale: "RelStale", opRelPrev: "RelPrev"}
+var kindName = map[opKind]string{opStartW: "StartW", opStartN: "StartN", opRelOwn: "RelOwn", opRelStale: "RelStale", opRelPrev: "RelPrev", opRelBarge: "RelOwn+StartN-by"}
 
 type clientState struct {
 	pending  bool
@@ -148,6 +150,31 @@ func runCase(ops []op, nclients int) (terms []string, human []string, nontrivial
 			q := guard.QueueSnapshot(g)
 			terms = append(terms, common.App("OStartN", common.Nat(o.C), common.Z(id), common.ZList(q)))
 			human = append(human, fmt.Sprintf("startN c%d -> %d q=%v", o.C, id, q))
+		case opRelBarge:
+			d := cs[o.D]
+			if c.pending || d.pending || len(c.holding) == 0 || o.C == o.D {
+				continue
+			}
+			id := c.holding[0]
+			c.holding = c.holding[1:]
+			c.released = append(c.released, id)
+			// hand-over window: the release wakes the next waiter; the non-waiting start
+			// runs before that waiter has been scheduled again
+			g.ReleaseTreasureGuard(guard.ID(id))
+			nid := int64(g.StartTreasureGuard(false))
+			q2 := guard.QueueSnapshot(g)
+			q1 := q2
+			if nid != 0 {
+				d.holding = append(d.holding, nid)
+				d.all = append(d.all, nid)
+				if len(q2) > 0 {
+					q1 = q2[:len(q2)-1]
+				}
+			}
+			terms = append(terms, common.App("ORelease", common.Nat(o.C), common.Z(id), common.ZList(q1)))
+			terms = append(terms, common.App("OStartN", common.Nat(o.D), common.Z(nid), common.ZList(q2)))
+			human = append(human, fmt.Sprintf("release c%d id=%d q=%v ; immediately startN c%d -> %d q=%v", o.C, id, q1, o.D, nid, q2))
+			nontrivial = true
 		case opRelOwn, opRelStale, opRelPrev:
 			if c.pending {
 				continue // a client blocked inside Start cannot call Release
@@ -234,7 +261,7 @@ func main() {
 		var al []op
 		for c := 0; c < ncl; c++ {
 			for _, k := range []opKind{opStartW, opStartN, opRelOwn, opRelStale, opRelPrev} {
-				al = append(al, op{k, c})
+				al = append(al, op{K: k, C: c})
 			}
 		}
 		return al
@@ -322,8 +349,26 @@ func main() {
 		}
 		emit(ops, ncl, "random")
 	}
+	// hand-over window: holder releases while waiters are parked and a non-waiting start arrives
+	// before the woken waiter runs
+	nh := 120
+	if a.Tier == "thorough" {
+		nh = 1500
+	}
+	for i := 0; i < nh; i++ {
+		ops := []op{{K: opStartW, C: 0}, {K: opStartW, C: 1}}
+		if rng.Bool() {
+			ops = append(ops, op{K: opStartW, C: 2})
+		}
+		ops = append(ops, op{K: opRelBarge, C: 0, D: 2 + rng.Intn(2)})
+		for j := rng.Intn(4); j > 0; j-- {
+			al := alphabet(4)
+			ops = append(ops, al[rng.Intn(len(al))])
+		}
+		emit(ops, 4, "handoff")
+	}
 	// the refutation witness of the old id policy, as client programs
-	emit([]op{{opStartW, 0}, {opRelOwn, 0}, {opStartW, 1}, {opRelStale, 0}, {opStartW, 2}}, 3, "witness")
+	emit([]op{{K: opStartW, C: 0}, {K: opRelOwn, C: 0}, {K: opStartW, C: 1}, {K: opRelStale, C: 0}, {K: opStartW, C: 2}}, 3, "witness")
 	flush()
 	run.Meta.Traces = run.Meta.Evaluations
 	run.Finish("check_all")
@@ -333,6 +378,9 @@ func opsHuman(ops []op) []string {
 	out := make([]string, len(ops))
 	for i, o := range ops {
 		out[i] = fmt.Sprintf("%s c%d", kindName[o.K], o.C)
+		if o.K == opRelBarge {
+			out[i] += fmt.Sprintf(" c%d", o.D)
+		}
 	}
 	return out
 }
